@@ -7,7 +7,7 @@ VMM_ASSUME = ['simulated machine: physical memory = host pages (frame = host add
 
 PROP = {
     'pkg': K + '/mm/vmm',
-    'tests': [{'name': 'TestVerifC06', 'checks_quick': 6000, 'checks_thorough': 150000}],
+    'tests': [{'name': 'TestVerifC06', 'checks_quick': 60000, 'checks_thorough': 1500000}],
     'rule': 'on the simulated machine (physical memory = memfd, so a virtual page can be a read-only alias of a frame) '
             'the vmm is brought up through Init or reserveZeroedFrame; rapid generates histories of (a) attempts to map the '
             'shared zero frame through Map/MapTemporary/MapRegion/IdentityMapRegion/PageDirectoryTable.Map (active and '
